@@ -3,8 +3,10 @@ package rules
 import (
 	"fmt"
 	"go/token"
+	"go/types"
 	"regexp"
 	"regexp/syntax"
+	"sort"
 	"strings"
 	"unicode"
 
@@ -60,8 +62,10 @@ func checkC14(p *core.Program, r *core.Report) {
 	r.Rule("R3", "operator tables: every Operator constant is a COMPARATOR literal of the grammar; aliases map grammar fragments to operators; Condition.String prints the condition's own operator; BoolCombination.String always parenthesises and joins with its own operator")
 	r.Rule("R4", "property prefixes: the writer's `fields.` / `urns.` prefixes pair with the reader's prefix arms and property types")
 	r.Rule("R5", "structure is kept by the parser's own rewriting: every type switch over QueryNode in contactql covers both node types, and Simplify flattens only children with the same operator and keeps their order (shared with C15/R5)")
+	r.Rule("R6", "the lexer reads the query text as given: what ParseQuery hands to antlr.NewInputStream is its text parameter after strings.TrimSpace, or the whole-text phone number rewrite `tel = <number>`; no other call may transform the text (a rewrite before lexing also rewrites the inside of quoted, escaped literals)")
 	r.Assumption("strconv.Quote/Unquote are inverse; structural identity of re-parsed queries for all inputs is not decided")
 	c15R5(p, r, p.Func("contactql", "evaluateNode"))
+	c14R6(p, r)
 
 	// ------------------------------------------------------------------ R1
 	esc := p.Func("flows", "ContactQueryEscaping")
@@ -395,4 +399,57 @@ func regexpFindAllLiterals(body string) []string {
 		i = j
 	}
 	return out
+}
+
+// c14TextPreprocessing: calls allowed between ParseQuery's text parameter and the lexer's input stream.
+var c14TextPreprocessing = map[string]string{
+	"strings.TrimSpace":      "outer white space is not part of any token",
+	"fmt.Sprintf":            "formats the phone-number rewrite",
+	"utils.ParsePhoneNumber": "whole-text phone number shortcut: the text is replaced, not edited, and only when all of it is a phone number",
+}
+
+func c14R6(p *core.Program, r *core.Report) {
+	pq := p.Func("contactql", "ParseQuery")
+	if pq == nil {
+		r.Errorf("contactql.ParseQuery not found")
+		return
+	}
+	n := 0
+	for _, cs := range core.Calls(pq, false) {
+		o := core.CalleeObj(cs.Common())
+		if o == nil || o.Name() != "NewInputStream" {
+			continue
+		}
+		n++
+		sl := core.BackSlice(cs.Common().Args[0], func(*ssa.Call) bool { return true })
+		fromParam := false
+		var bad []string
+		for v := range sl {
+			switch x := v.(type) {
+			case *ssa.Parameter:
+				if b, ok := x.Type().Underlying().(*types.Basic); ok && b.Kind() == types.String {
+					fromParam = true
+				}
+			case *ssa.Call:
+				if x.Call.IsInvoke() {
+					continue // environment getters (DefaultCountry): not applied to the text
+				}
+				nm := "a dynamic call"
+				if co := core.CalleeObj(&x.Call); co != nil {
+					nm = core.ObjName(co)
+				}
+				if _, ok := c14TextPreprocessing[nm]; !ok {
+					bad = append(bad, nm+" at "+p.Pos(x.Pos()))
+				}
+			}
+		}
+		sort.Strings(bad)
+		if !fromParam {
+			r.Unknown("R6", "ParseQuery/lexer-input", p.Pos(cs.Pos()), "the lexer's input does not derive from a string parameter of ParseQuery")
+			continue
+		}
+		r.Check(len(bad) == 0, "R6", "ParseQuery/lexer-input", p.Pos(cs.Pos()), "text parameter, trimmed (or the phone number rewrite)",
+			"the query text is transformed by "+strings.Join(bad, ", ")+" before it reaches the lexer: the transformation also applies inside quoted literals, so a value that was escaped into one literal no longer parses as that literal")
+	}
+	r.Require("lexer_input_sites", n, 1)
 }
